@@ -7,10 +7,14 @@ package main
 
 import (
 	"fmt"
+	"os"
+	"path/filepath"
+	"sort"
 	"strings"
 	"time"
 
 	d "github.com/ostafen/clover/v2/document"
+	"github.com/ostafen/clover/v2/query"
 )
 
 // bake the ids the implementation generated into the documents, so that a history can be replayed exactly
@@ -83,6 +87,24 @@ func withDeadline(d time.Duration, f func()) bool {
 	case <-time.After(d):
 		return false
 	}
+}
+
+// follow-up writes after an operation under test: one document into every collection (fixed ids, so that two
+// runs that agree on the catalog store the same keys), which rewrites every metadata record and index
+func faultFollowUps(env *Env) {
+	withDeadline(10*time.Second, func() {
+		names, err := env.db.ListCollections()
+		if err != nil {
+			return
+		}
+		sort.Strings(names)
+		for i, c := range names {
+			if c == "zz-followup" {
+				continue
+			}
+			env.db.Insert(c, d.NewDocumentOf(map[string]interface{}{"_id": fmt.Sprintf("%08x-9999-4999-8999-%012x", i, i), "a": int64(i), "b": "fu", "x": int64(2), "n": map[string]interface{}{"a": int64(1)}}))
+		}
+	})
 }
 
 func isMultiTx(kind string) bool { return kind == "CreateByQuery" || kind == "Import" }
@@ -164,13 +186,31 @@ func runFaultStream(seed int64, n int, out, backendSpec, tier string) *RunReport
 				r0 := t0.exec(env)
 				ncalls := int(env.st.calls)
 				after0, _ := dumpStore(env.st.inner)
-				if errKind(r0) != "e0" {
-					if !withDeadline(5*time.Second, func() { env.db.CreateCollection("zz-followup") }) {
-						env.wedged = true
-						f.failf("handle wedged after %s returned %s on %s: a follow-up write did not return within 5s; op %s", target.Kind, errKind(r0), be, t0.term())
-					}
+				if !withDeadline(5*time.Second, func() { env.db.CreateCollection("zz-followup") }) {
+					env.wedged = true
+					f.failf("handle wedged after %s returned %s on %s: a follow-up write did not return within 5s; op %s", target.Kind, errKind(r0), be, t0.term())
+				}
+				// reference states for "a failed operation has no effect, not even on what later operations store":
+				// the same follow-up writes after the completed operation, and after no operation at all
+				refOK := ""
+				if !env.wedged {
+					faultFollowUps(env)
+					dd, _ := dumpStore(env.st.inner)
+					refOK = Tstr(dd)
 				}
 				env.destroy()
+				refFail := ""
+				if env2, err := newEnv(be); err == nil {
+					replayOn(env2, base)
+					env2.db.CreateCollection("zz-followup")
+					faultFollowUps(env2)
+					dd, _ := dumpStore(env2.st.inner)
+					refFail = Tstr(dd)
+					env2.destroy()
+				}
+				if errKind(r0) != "e0" && !isMultiTx(target.Kind) && refOK != "" && refOK != refFail {
+					f.failf("after %s returned %s, later writes on the same handle store something else than if it had never been called (%s); op %s after %s", target.Kind, errKind(r0), be, t0.term(), clip(baseTerm, 600))
+				}
 				evals++
 				cs.Add(fmt.Sprintf("(HFault %s %s (-1) %s %s %d)", baseTerm, t0.term(), Tstr(r0), Tstr(after0), ncalls), hi == 0 && len(cs.Sample) < 6)
 				if errKind(r0) != "e0" && Tstr(after0) != Tstr(before) {
@@ -230,6 +270,17 @@ func runFaultStream(seed int64, n int, out, backendSpec, tier string) *RunReport
 					if !ok {
 						env.wedged = true
 						f.failf("handle wedged after %s failed at call %d (%s) on %s: a follow-up write did not return within 5s; op %s", target.Kind, k, what, be, tk.term())
+					}
+					if ok && !isMultiTx(target.Kind) && refOK != "" && refFail != "" {
+						faultFollowUps(env)
+						dd, _ := dumpStore(env.st.inner)
+						want, how := refFail, "had never been called"
+						if errKind(rk) == "e0" {
+							want, how = refOK, "had completed without a fault"
+						}
+						if Tstr(dd) != want {
+							f.failf("%s hit a store failure at call %d (%s) and returned %s; later writes on the same handle then store something else than if it %s (%s); op %s after %s", target.Kind, k, what, errKind(rk), how, be, tk.term(), clip(baseTerm, 600))
+						}
 					}
 					if len(samples) < 3 && k == ncalls/2 {
 						samples = append(samples, map[string]interface{}{"op": clip(tk.term(), 300), "failing_call": k, "call_kind": what, "of_calls": ncalls, "impl_result": Tstr(rk), "backend": be})
@@ -302,6 +353,45 @@ func runFaultStream(seed int64, n int, out, backendSpec, tier string) *RunReport
 			f.failf("a 14 MB batch failed (%v) on badger but left %d keys behind (%d before)", err, len(after.([]T)), len(before.([]T)))
 		}
 		distinct["hugebatch/badger"] = true
+		env.destroy()
+	}
+	// an import far larger than any batch size, with the offending element near its end: the new collection may stay
+	// (known finding K-composite) but none of the file's documents may
+	for _, be := range backendsOf(backendSpec) {
+		env, err := newEnv(be)
+		if err != nil {
+			continue
+		}
+		env.db.CreateCollection("other")
+		env.db.Insert("other", d.NewDocumentOf(scaleDoc(1)))
+		var sb strings.Builder
+		sb.WriteString("[")
+		for i := 0; i < 2500; i++ {
+			if i > 0 {
+				sb.WriteString(",")
+			}
+			id := fmt.Sprintf("%08x-5555-4666-8777-%012x", i, i)
+			if i == 2400 {
+				id = fmt.Sprintf("%08x-5555-4666-8777-%012x", 7, 7) // a duplicate of element 7
+			}
+			fmt.Fprintf(&sb, `{"_id":"%s","k":%d}`, id, i)
+		}
+		sb.WriteString("]")
+		path := filepath.Join(env.tmpdir, "bigimport.json")
+		os.WriteFile(path, []byte(sb.String()), 0o644)
+		err = env.db.ImportCollection("imported", path)
+		evals++
+		if err == nil {
+			f.failf("ImportCollection of 2500 documents with a duplicate _id at position 2400 succeeded on %s", be)
+		} else {
+			if has, _ := env.db.HasCollection("imported"); has {
+				known["K-composite: Import returned an error after its first transaction had committed (the created collection stays)"] = true
+				if left, _ := env.db.FindAll(query.NewQuery("imported")); len(left) != 0 {
+					f.failf("a failed ImportCollection (%v) left %d of the file's 2500 documents behind on %s", err, len(left), be)
+				}
+			}
+		}
+		distinct["bigimport/"+be] = true
 		env.destroy()
 	}
 	files := cs.Write(out, "fault")
